@@ -131,22 +131,35 @@ def SimpleField (f : FieldD) : Prop :=
   ∃ (abs : Bool) (first : String) (rest : List String), IsIdent first ∧ (∀ r ∈ rest, IsIdent r) ∧
     f.type = tyStr abs first rest ∧ (abs = false → first ≠ "map") ∧ (f.label = "" → abs = false → kwOk first)
 
+/-- a map field without options, comments and custom JSON name: a scalar key type, a named or scalar value type -/
+def MapField (f : FieldD) : Prop :=
+  f.kind = .field ∧ f.loc.isNone ∧ f.opts = [] ∧ f.label = "" ∧
+  IsIdent f.name ∧ f.json = some (String.ofList (defaultJSONName f.name.toList)) ∧
+  ∃ (k : String) (abs : Bool) (first : String) (rest : List String), IsIdent k ∧ IsIdent first ∧ (∀ r ∈ rest, IsIdent r) ∧
+    f.type = mapTy k abs first rest
+
 /-- an enum value without options and comments -/
 def SimpleValue (f : FieldD) : Prop :=
   f.kind = .value ∧ f.loc.isNone ∧ f.opts = [] ∧ f.label = "" ∧ f.type = "" ∧ IsIdent f.name ∧ f.name ≠ "option" ∧
   f.json = none
 
 mutual
-/-- messages (nested), enums, fields, enum values; no options, no comments -/
+/-- messages (nested), enums, oneofs, fields, enum values; no options, no comments -/
 def SimpleItem : Item → Prop
-  | .field f => SimpleField f
+  | .field f => SimpleField f ∨ MapField f
   | .rpc _ _ _ _ _ _ => False
   | .block kw t l _ name os ks =>
     l.isNone ∧ os = [] ∧ IsIdent name ∧
-    ((kw = "message" ∧ t = 1 ∧ SimpleKids ks) ∨ (kw = "enum" ∧ t = 2 ∧ SimpleValues ks))
+    ((kw = "message" ∧ t = 1 ∧ SimpleKids ks) ∨ (kw = "enum" ∧ t = 2 ∧ SimpleValues ks) ∨
+      (kw = "oneof" ∧ t = 0 ∧ ks ≠ [] ∧ SimpleMembers ks))
 def SimpleKids : List Item → Prop
   | [] => True
   | e :: r => SimpleItem e ∧ SimpleKids r
+/-- the members of a `oneof`: fields without label -/
+def SimpleMembers : List Item → Prop
+  | [] => True
+  | .field f :: r => (SimpleField f ∧ f.label = "") ∧ SimpleMembers r
+  | _ :: _ => False
 def SimpleValues : List Item → Prop
   | [] => True
   | .field f :: r => SimpleValue f ∧ SimpleValues r
@@ -195,6 +208,13 @@ def fieldLine (n : Nat) (f : FieldD) : String :=
 /-- the line of an enum value -/
 def valueLine (n : Nat) (f : FieldD) : String := ind n (f.name ++ " = " ++ formatInt f.number ++ ";" ++ "")
 
+theorem fieldCmds_map (n : Nat) (f : FieldD) (h : MapField f) : fieldCmds n f = [Cmd.line (fieldLine n f)] := by
+  obtain ⟨hk, hl, ho, _, _, hj, _⟩ := h
+  unfold fieldCmds
+  rw [leadingCmds_noComments n hl.noComments, trailingCmds_noComments n hl.noComments,
+    inlineComment_noComments hl.noComments, popts_simple f ho (Or.inr hj)]
+  simp [fieldStyle, fieldLine, FieldD.head, hk]
+
 theorem fieldCmds_simple (n : Nat) (f : FieldD) (h : SimpleField f) : fieldCmds n f = [Cmd.line (fieldLine n f)] := by
   obtain ⟨hk, hl, ho, _, _, hj, _⟩ := h
   unfold fieldCmds
@@ -239,7 +259,7 @@ theorem exec_gapIf (c g : Bool) : exec (if c then [Cmd.gap] else []) g = ([], g 
 mutual
 /-- the shape the layout lemmas need: no options, no comments, no methods -/
 def Plain : Item → Prop
-  | .field f => SimpleField f ∨ SimpleValue f
+  | .field f => SimpleField f ∨ SimpleValue f ∨ MapField f
   | .rpc l _ _ _ _ os => l.isNone ∧ os = []
   | .block _ _ l _ _ os ks => l.isNone ∧ os = [] ∧ PlainList ks
 def PlainList : List Item → Prop
@@ -249,15 +269,20 @@ end
 
 mutual
 theorem SimpleItem.plain : ∀ e, SimpleItem e → Plain e
-  | .field _, h => Or.inl h
+  | .field _, h => by
+    simp only [SimpleItem] at h
+    rcases h with h | h
+    · exact Or.inl h
+    · exact Or.inr (Or.inr h)
   | .rpc _ _ _ _ _ _, h => h.elim
   | .block _ _ _ _ _ _ ks, h => by
     simp only [SimpleItem] at h
     simp only [Plain]
     refine ⟨h.1, h.2.1, ?_⟩
-    rcases h.2.2.2 with hm | he
+    rcases h.2.2.2 with hm | he | ho
     · exact SimpleKids.plain ks hm.2.2
     · exact SimpleValues.plain ks he.2.2
+    · exact SimpleMembers.plain ks ho.2.2.2
 theorem SimpleKids.plain : ∀ es, SimpleKids es → PlainList es
   | [], _ => trivial
   | e :: r, h => by
@@ -267,14 +292,22 @@ theorem SimpleValues.plain : ∀ es, SimpleValues es → PlainList es
   | [], _ => trivial
   | .field f :: r, h => by
     simp only [SimpleValues] at h
-    exact ⟨Or.inr h.1, SimpleValues.plain r h.2⟩
+    exact ⟨Or.inr (Or.inl h.1), SimpleValues.plain r h.2⟩
   | .rpc _ _ _ _ _ _ :: _, h => by simp [SimpleValues] at h
   | .block _ _ _ _ _ _ _ :: _, h => by simp [SimpleValues] at h
+theorem SimpleMembers.plain : ∀ es, SimpleMembers es → PlainList es
+  | [], _ => trivial
+  | .field f :: r, h => by
+    simp only [SimpleMembers] at h
+    exact ⟨Or.inl h.1.1, SimpleMembers.plain r h.2⟩
+  | .rpc _ _ _ _ _ _ :: _, h => by simp [SimpleMembers] at h
+  | .block _ _ _ _ _ _ _ :: _, h => by simp [SimpleMembers] at h
 end
 
 theorem Plain.loc : ∀ e, Plain e → e.loc.isNone
   | .field f, h => by
-    rcases h with h | h
+    rcases h with h | h | h
+    · exact h.2.1
     · exact h.2.1
     · exact h.2.1
   | .rpc _ _ _ _ _ _, h => h.1
@@ -286,11 +319,12 @@ def leafLine (n : Nat) (f : FieldD) : String :=
   | .field => fieldLine n f
   | .value => valueLine n f
 
-theorem fieldCmds_leaf (n : Nat) (f : FieldD) (h : SimpleField f ∨ SimpleValue f) :
+theorem fieldCmds_leaf (n : Nat) (f : FieldD) (h : SimpleField f ∨ SimpleValue f ∨ MapField f) :
     fieldCmds n f = [Cmd.line (leafLine n f)] := by
-  rcases h with h | h
+  rcases h with h | h | h
   · rw [fieldCmds_simple n f h]; simp [leafLine, h.1]
   · rw [fieldCmds_value n f h]; simp [leafLine, h.1]
+  · rw [fieldCmds_map n f h]; simp [leafLine, h.1]
 
 /-- the line of a method without options -/
 def rpcLine (n : Nat) (name inT outT : String) : String :=
@@ -468,7 +502,7 @@ theorem enumBody_values : ∀ (es : List Item), SimpleValues es →
     simp [elemsCmds, toksOf_nil, rdKids, fieldsOf]
   | .field f :: r, h, n, first, lt, L, g, F, os, vs, rest, hr => by
     simp only [SimpleValues] at h
-    rw [toksOf_elems_cons n (.field f) r first lt g L (Or.inr h.1)]
+    rw [toksOf_elems_cons n (.field f) r first lt g L (Or.inr (Or.inl h.1))]
     simp only [itemToks, leafLine, h.1.1, List.length_cons, List.append_assoc]
     rw [← Nat.add_assoc, enumBody_value (F + r.length) f h.1 n _ _ (trailOf_toksOf _ _ _ _ hr)]
     rw [enumBody_values r h.2 n false _ _ _ F os _ rest hr]
@@ -488,6 +522,31 @@ theorem rdKids_values : ∀ (es : List Item), SimpleValues es → ∀ (first : B
     exact rdKids_values r h.2 _ _ _ _
   | .rpc _ _ _ _ _ _ :: _, h, _, _, _, _ => by simp [SimpleValues] at h
   | .block _ _ _ _ _ _ _ :: _, h, _, _, _, _ => by simp [SimpleValues] at h
+
+
+theorem isIdent_oneof : IsIdent "oneof" := ⟨'o', ['n', 'e', 'o', 'f'], by decide, by decide, by decide⟩
+
+theorem oneofBody_close (F : Nat) (l : Nat) (more : List PTok) (os : List RawOpt) (fs : List FieldD) :
+    oneofBody (F + 1) (T (.sym '}') l :: more) os fs = some (os, fs, l, more) := by
+  simp [oneofBody, T]
+
+theorem rdKids_members : ∀ (es : List Item), SimpleMembers es → ∀ (first : Bool) (lt L : Nat) (g : Bool),
+    (rdKids es first lt L g).1 = (fieldsOf (rdKids es first lt L g).1).map Item.field
+  | [], _, _, _, _, _ => by simp [rdKids, fieldsOf]
+  | .field f :: r, h, first, lt, L, g => by
+    simp only [SimpleMembers] at h
+    simp only [rdKids, rdItem, fieldsOf, List.map_cons]
+    congr 1
+    exact rdKids_members r h.2 _ _ _ _
+  | .rpc _ _ _ _ _ _ :: _, h, _, _, _, _ => by simp [SimpleMembers] at h
+  | .block _ _ _ _ _ _ _ :: _, h, _, _, _, _ => by simp [SimpleMembers] at h
+
+theorem rdKids_members_ne : ∀ (es : List Item), SimpleMembers es → es ≠ [] → ∀ (first : Bool) (lt L : Nat) (g : Bool),
+    fieldsOf (rdKids es first lt L g).1 ≠ []
+  | [], _, h, _, _, _, _ => (h rfl).elim
+  | .field f :: r, _, _, first, lt, L, g => by simp [rdKids, rdItem, fieldsOf]
+  | .rpc _ _ _ _ _ _ :: _, h, _, _, _, _, _ => by simp [SimpleMembers] at h
+  | .block _ _ _ _ _ _ _ :: _, h, _, _, _, _, _ => by simp [SimpleMembers] at h
 
 theorem messageBody_close (F : Nat) (l : Nat) (more : List PTok) (os : List RawOpt) (ks : List Item) :
     messageBody (F + 1) (T (.sym '}') l :: more) os ks = some (os, ks, l, more) := by
@@ -570,6 +629,26 @@ theorem messageBody_field (F : Nat) (f : FieldD) (h : SimpleField f) (n s : Nat)
   subst hk hty hj ho
   rfl
 
+/-- a map field in a message body -/
+theorem messageBody_mapfield (F : Nat) (f : FieldD) (h : MapField f) (n s : Nat) (more : List PTok)
+    (hm : trailOf more = "") (os : List RawOpt) (ks : List Item) :
+    messageBody (F + 1) (lineToks (fieldLine n f) s ++ more) os ks =
+      messageBody F more os (ks ++ [.field { f with loc := lineLoc s s, index := 0 }]) := by
+  obtain ⟨hk, hl, ho, hlab, hn, hj, k, abs, first, rest, hki, hf, hr, hty⟩ := h
+  unfold fieldLine
+  rw [hty, hlab, lineToks_map n k abs first rest f.name f.number s hki hf hr hn]
+  have hparse := parseField_map k abs first rest f.name f.number s more hki hf
+  have hstart : FieldStart (.ident "map") := Or.inr ⟨"map", rfl, by decide, by decide, by decide, by decide⟩
+  unfold mapLineToks at hparse ⊢
+  simp only [List.cons_append, T] at hparse ⊢
+  rw [messageBody_default F _ s Cm.none _ hstart, hparse]
+  simp only [hm]
+  congr 2
+  obtain ⟨k', lc, ix, lb, ty, nm, num, js, op⟩ := f
+  simp only at hk hty hj ho hlab
+  subst hk hty hj ho hlab
+  rfl
+
 theorem messageBody_msg_step (F : Nat) (name : String) (s : Nat) (r : List PTok) (os : List RawOpt) (ks : List Item) :
     messageBody (F + 1) (T (.ident "message") s :: T (.ident name) s :: T (.sym '{') s :: r) os ks =
       match messageBody F r [] [] with
@@ -585,6 +664,79 @@ theorem messageBody_enum_step (F : Nat) (name : String) (s : Nat) (r : List PTok
       match enumBody F r [] [] with
       | some (eos, vs, le, r') =>
         messageBody F r' os (ks ++ [.block "enum" 2 (mkLoc s le Cm.none (trailOf r)) 0 name (mkOpts s eos) (vs.map .field)])
+      | none => none := by
+  simp only [T]
+  rw [messageBody]
+  rfl
+
+theorem oneofBody_default (F : Nat) (t : Grammar.Tok) (l : Nat) (c : Cm) (tl : List PTok) (h : FieldStart t)
+    (os : List RawOpt) (fs : List FieldD) :
+    oneofBody (F + 1) (⟨t, l, c⟩ :: tl) os fs =
+      match parseField (⟨t, l, c⟩ :: tl) with
+      | some (fd, r) => oneofBody F r os (fs ++ [fd])
+      | none => none := by
+  rw [oneofBody]
+  all_goals intros
+  all_goals first
+    | rfl
+    | (rename_i heq
+       simp only [List.cons.injEq, PTok.mk.injEq] at heq
+       rcases h with ⟨c', hc, hne⟩ | ⟨s, hs, h1, h2, h3, h4⟩
+       · subst hc
+         have := heq.1.1
+         first | (simp only [Grammar.Tok.sym.injEq] at this; exact hne this) | (simp at this)
+       · subst hs
+         have := heq.1.1
+         first
+           | (simp only [Grammar.Tok.ident.injEq] at this
+              first | exact h1 this | exact h2 this | exact h3 this | exact h4 this)
+           | (simp at this))
+
+/-- a member of a oneof -/
+theorem oneofBody_field (F : Nat) (f : FieldD) (h : SimpleField f) (n s : Nat) (more : List PTok)
+    (hm : trailOf more = "") (os : List RawOpt) (fs : List FieldD) :
+    oneofBody (F + 1) (lineToks (fieldLine n f) s ++ more) os fs =
+      oneofBody F more os (fs ++ [{ f with loc := lineLoc s s, index := 0 }]) := by
+  obtain ⟨hk, hl, ho, hlab, hn, hj, abs, first, rest, hf, hr, hty, hmap, hkw⟩ := h
+  unfold fieldLine
+  rw [hty, lineToks_field n f.label hlab abs first rest f.name f.number s hf hr hn]
+  obtain ⟨t, tl, hhead, hstart⟩ := fieldLineToks_head f.label hlab abs first rest f.name f.number s hkw
+  have hparse := parseField_toks f.label hlab abs first rest f.name f.number s more hf hmap
+    (fun h1 h2 => ⟨(hkw h1 h2).1, (hkw h1 h2).2.1⟩)
+  rw [hhead, List.cons_append] at hparse ⊢
+  rw [oneofBody_default F t s Cm.none _ hstart, hparse]
+  simp only [hm]
+  congr 2
+  obtain ⟨k, lc, ix, lb, ty, nm, num, js, op⟩ := f
+  simp only at hk hty hj ho
+  subst hk hty hj ho
+  rfl
+
+theorem oneofBody_members : ∀ (es : List Item), SimpleMembers es →
+    ∀ (n : Nat) (first : Bool) (lt L : Nat) (g : Bool) (F : Nat) (os : List RawOpt) (fs : List FieldD)
+      (rest : List PTok), trailOf rest = "" →
+    oneofBody (F + es.length) (toksOf (elemsCmds n es first 0 lt) g L ++ rest) os fs =
+      oneofBody F rest os (fs ++ fieldsOf (rdKids es first lt L g).1)
+  | [], _, n, first, lt, L, g, F, os, fs, rest, _ => by
+    simp [elemsCmds, toksOf_nil, rdKids, fieldsOf]
+  | .field f :: r, h, n, first, lt, L, g, F, os, fs, rest, hr => by
+    simp only [SimpleMembers] at h
+    rw [toksOf_elems_cons n (.field f) r first lt g L (Or.inl h.1.1)]
+    simp only [itemToks, leafLine, h.1.1.1, List.length_cons, List.append_assoc]
+    rw [← Nat.add_assoc, oneofBody_field (F + r.length) f h.1.1 n _ _ (trailOf_toksOf _ _ _ _ hr)]
+    rw [oneofBody_members r h.2 n false _ _ _ F os _ rest hr]
+    simp only [rdKids, rdItem, fieldsOf, List.append_assoc, List.cons_append, List.nil_append, Item.typeOrder,
+      Item.gapEnder, startLine, gapBefore]
+    rfl
+  | .rpc _ _ _ _ _ _ :: _, h, _, _, _, _, _, _, _, _, _, _ => by simp [SimpleMembers] at h
+  | .block _ _ _ _ _ _ _ :: _, h, _, _, _, _, _, _, _, _, _, _ => by simp [SimpleMembers] at h
+
+theorem messageBody_oneof_step (F : Nat) (name : String) (s : Nat) (r : List PTok) (os : List RawOpt) (ks : List Item) :
+    messageBody (F + 1) (T (.ident "oneof") s :: T (.ident name) s :: T (.sym '{') s :: r) os ks =
+      match oneofBody F r [] [] with
+      | some (_, [], _, _) => none
+      | some (oos, fs, le, r') =>
+        messageBody F r' os (ks ++ [.block "oneof" 0 (mkLoc s le Cm.none (trailOf r)) 0 name (mkOpts s oos) (fs.map .field)])
       | none => none := by
   simp only [T]
   rw [messageBody]
@@ -616,16 +768,39 @@ theorem mb_item : ∀ (e : Item), SimpleItem e → ∀ (n s G : Nat) (os : List 
     messageBody (G + 1) (itemToks n e s ++ more) os ks = messageBody G more os (ks ++ [(rdItem e s).1])
   | .field f, h, n, s, G, os, ks, more, hm, _ => by
     simp only [SimpleItem] at h
-    have hleaf : leafLine n f = fieldLine n f := by simp [leafLine, h.1]
-    simp only [itemToks, rdItem, hleaf]
-    exact messageBody_field G f h n s more hm os ks
+    rcases h with h | h
+    · have hleaf : leafLine n f = fieldLine n f := by simp [leafLine, h.1]
+      simp only [itemToks, rdItem, hleaf]
+      exact messageBody_field G f h n s more hm os ks
+    · have hleaf : leafLine n f = fieldLine n f := by simp [leafLine, h.1]
+      simp only [itemToks, rdItem, hleaf]
+      exact messageBody_mapfield G f h n s more hm os ks
   | .rpc _ _ _ _ _ _, h, _, _, _, _, _, _, _, _ => h.elim
   | .block kw t l i name opts kids, h, n, s, G, os, ks, more, hm, hG => by
     simp only [SimpleItem] at h
     obtain ⟨hl, ho, hname, hcase⟩ := h
     subst ho
     simp only [need1] at hG
-    rcases hcase with ⟨hkw, ht, hk⟩ | ⟨hkw, ht, hk⟩
+    rcases hcase with ⟨hkw, ht, hk⟩ | ⟨hkw, ht, hk⟩ | ⟨hkw, ht, hne0, hk⟩
+    rotate_left 2
+    · -- a oneof
+      subst hkw ht
+      have hne : kids.isEmpty = false := by cases kids with | nil => exact (hne0 rfl).elim | cons _ _ => rfl
+      simp only [itemToks, rdItem, hne, Bool.false_eq_true, if_false]
+      rw [lineToks_open n "oneof" name s isIdent_oneof hname, lineToks_close]
+      simp only [List.cons_append, List.nil_append, List.append_assoc]
+      rw [messageBody_oneof_step]
+      obtain ⟨F', hGe, h1⟩ : ∃ F', G = F' + kids.length ∧ 1 ≤ F' := ⟨G - kids.length, by omega, by omega⟩
+      obtain ⟨F'', rfl⟩ : ∃ F'', F' = F'' + 1 := ⟨F' - 1, by omega⟩
+      have hmem := oneofBody_members kids hk (n + 1) true 0 (s + 1) false (F'' + 1) [] []
+        (T (.sym '}') (rdKids kids true 0 (s + 1) false).2 :: more) rfl
+      rw [hGe, hmem, oneofBody_close]
+      obtain ⟨a, b, hab⟩ := List.exists_cons_of_ne_nil (rdKids_members_ne kids hk hne0 true 0 (s + 1) false)
+      simp only [List.nil_append, hab]
+      simp only [mkOpts, groupOpts, unlocateShared, List.map_nil]
+      have htr : trailOf (toksOf (elemsCmds (n + 1) kids true 0 0) false (s + 1) ++
+          T (.sym '}') (rdKids kids true 0 (s + 1) false).2 :: more) = "" := trailOf_toksOf _ _ _ _ rfl
+      rw [htr, mkLoc_plain, ← hab, ← rdKids_members kids hk]
     · -- a nested message
       subst hkw ht
       by_cases hempty : kids.isEmpty = true
@@ -706,9 +881,9 @@ end
 
 theorem optsOk_nil : optsOk [] [] := ⟨rfl, by simp, by simp⟩
 
-theorem fieldOk_rd (f : FieldD) (h : SimpleField f ∨ SimpleValue f) (s : Nat) :
+theorem fieldOk_rd (f : FieldD) (h : SimpleField f ∨ SimpleValue f ∨ MapField f) (s : Nat) :
     fieldOk f { f with loc := lineLoc s s, index := 0 } := by
-  have ho : f.opts = [] := by rcases h with h | h <;> exact h.2.2.1
+  have ho : f.opts = [] := by rcases h with h | h | h <;> exact h.2.2.1
   refine ⟨rfl, rfl, rfl, rfl, rfl, rfl, ⟨rfl, rfl, rfl⟩, rfl, ?_, ?_⟩
   · rw [ho]; simp
   · intro p _ _ o' ho'
